@@ -532,6 +532,10 @@ func (s *session) exec(op string) string {
 		}
 		return ""
 	}
+	if f[0] == "SLEEP" { // SLEEP <ms>: inside a MULTI, lets the requests sent so far reach the point where they block
+		time.Sleep(time.Duration(atoi(f[1])) * time.Millisecond)
+		return ""
+	}
 	if f[0] == "RELEASE" { // let the parked goroutine go on
 		if s.gateRelease != nil {
 			s.gateRelease()
